@@ -195,6 +195,10 @@ def build(M, case, c):
         kw = {}
         if c["name"] != "create":
             kw["symbolic_kw"] = dict(LEAN)
+        c["given"] = given_symbols(case, c)
+        for arg in ("substance_symbols", "parameter_symbols", "time_symbol"):
+            if c["given"][arg] is not None:
+                kw[arg] = c["given"][arg]
         if c["cstr"]:
             kw["rates_kw"] = dict(cstr_fr_fc=c["cstr"])
         if c["pexpr"]:
@@ -220,6 +224,38 @@ def build(M, case, c):
     if c["cstr"]:
         kw["cstr"] = c["cstr_arg"]
     return M["get_odesys"](rsys, **kw)
+
+
+def given_symbols(case, c):
+    """The caller's own symbols for the optional arguments of _create_odesys, built from case['sym'].
+
+    {"substance_symbols": None | dict | OrderedDict (substance key -> Symbol), "parameter_symbols": None | OrderedDict
+    (parameter key -> Symbol), "time_symbol": None | Symbol}.  All names are distinct (c_/y prefixes or substance keys for
+    substances, q<i> for parameters, tau/x/t_ for time; parameter keys are k_j, flow, feed_i, temperature)."""
+    import sympy
+    sym = case.get("sym") or {"subst": "default", "params": None, "time": None}
+    out = {"substance_symbols": None, "parameter_symbols": None, "time_symbol": None}
+    if sym["subst"] != "default":
+        order = list(sym["order"]) if sym["subst"] == "dict_perm" else list(case["subs"])
+
+        def name(k):
+            if sym["names"] == "prefix":
+                return "c_" + k
+            if sym["names"] == "index":
+                return "y%d" % order.index(k)
+            return order[(order.index(k) + 1) % len(order)]
+        pairs = [(k, sympy.Symbol(name(k), **sym["assume"])) for k in order]
+        out["substance_symbols"] = OrderedDict(pairs) if sym["subst"] == "odict" else dict(pairs)
+    if sym["params"] is not None:
+        keys = sorted(c["free"])
+        r = sym["params"]["rot"] % len(keys) if keys else 0
+        keys = keys[r:] + keys[:r]
+        if sym["params"]["rev"]:
+            keys.reverse()
+        out["parameter_symbols"] = OrderedDict((k, sympy.Symbol("q%d" % i)) for i, k in enumerate(keys))
+    if sym["time"] is not None:
+        out["time_symbol"] = sympy.Symbol(sym["time"])
+    return out
 
 
 def constant_rhs(case, c):
@@ -409,6 +445,10 @@ def check_program(case, ctx):
         ctx.label("both_sides")
     if any(not rx["reac"] for rx in rxns):
         ctx.label("zeroth_order")
+    zeros = [j for j, rx in enumerate(rxns) if G.frac(rx["par"][0]) == 0]
+    if zeros:
+        ctx.label("zero_rate_constant", "zero_rate_constant:%s" % ("all" if len(zeros) == len(rxns) else
+                                                                     "not_last" if zeros[0] < len(rxns) - 1 else "last"))
 
     base = base_values(case)
     numeric_results = {}
@@ -467,6 +507,30 @@ def check_program(case, ctx):
             ctx.fail("param_names", cfg=name, got=sorted(pn), expected=sorted(c["free"]))
             continue
         # ---- symbol table --------------------------------------------------------------------------------
+        given = c.get("given") or {}
+        if given.get("substance_symbols") is not None:
+            # the caller's own symbols: equation i must belong to the symbol given for substance i (looked up by key)
+            ctx.label("create:substance_symbols=" + case["sym"]["subst"])
+            if case["sym"]["subst"] == "dict_perm" and list(case["sym"]["order"]) != list(subs):
+                ctx.label("create:substance_symbols_in_other_order")
+            want = [given["substance_symbols"][s] for s in subs]
+            if list(od.dep) != want:
+                ctx.fail("dependent_variable_is_not_the_given_symbol", cfg=name, got=[str(d) for d in od.dep],
+                         expected=[str(d) for d in want], substances=list(subs))
+                continue
+        if given.get("parameter_symbols") is not None:
+            ctx.label("create:parameter_symbols_given")
+            want = [given["parameter_symbols"][k] for k in pn]
+            if list(od.params) != want:
+                ctx.fail("parameter_is_not_the_given_symbol", cfg=name, got=[str(d) for d in od.params],
+                         expected=[str(d) for d in want], param_names=pn)
+                continue
+        if given.get("time_symbol") is not None:
+            ctx.label("create:time_symbol_given")
+            if od.indep != given["time_symbol"]:
+                ctx.fail("independent_variable_is_not_the_given_symbol", cfg=name, got=str(od.indep),
+                         expected=str(given["time_symbol"]))
+                continue
         sym_slot = {}
         for s, d in zip(subs, od.dep):
             sym_slot[d] = ("c", s)
